@@ -81,7 +81,9 @@ class MThread(object):
       sch.ctl.release()
 
   def _global_trace(self, frame, event, arg):
-    if frame.f_code.co_filename in self.sched.files:
+    fn = frame.f_code.co_filename
+    if fn in self.sched.files and (self.sched.funcs is None or fn not in self.sched.funcs
+                                   or frame.f_code.co_name in self.sched.funcs[fn]):
       if self.sched.opcodes:
         frame.f_trace_opcodes = True
       return self._local_trace
@@ -89,6 +91,7 @@ class MThread(object):
 
   def _local_trace(self, frame, event, arg):
     if event == 'line' or event == 'opcode':
+      self.sched.last_line[self.name] = (frame.f_code.co_name, frame.f_lineno)
       self.sched._yield(self, 'line')
     return self._local_trace
 
@@ -139,8 +142,9 @@ class CoopLock(object):
 
 
 class Scheduler(object):
-  def __init__(self, files=(), opcodes=False, max_steps=20000):
+  def __init__(self, files=(), opcodes=False, max_steps=20000, funcs=None):
     self.files = set(files)
+    self.funcs = funcs       # optional {filename: set of function names}: trace only those functions
     self.opcodes = opcodes
     self.threads = []
     self.ctl = _Gate()
@@ -151,6 +155,8 @@ class Scheduler(object):
     self.on_point = None   # callback(thread_name, kind) run in the yielding thread
     self.last = None
     self.last_kind = {}
+    self.last_line = {}
+    self.voluntary = {'sleep'}   # yield kinds after which switching away is not a pre-emption
 
   def current(self):
     return getattr(self._tls, 'me', None)
@@ -209,7 +215,7 @@ class Scheduler(object):
           if all(t.done for t in self.threads):
             break
           raise Deadlock('no enabled thread: %s' % [(t.name, t.done, getattr(t.waiting_on, 'name', None)) for t in self.threads])
-        if cur is not None and self.last_kind.get(cur) == 'sleep':
+        if cur is not None and self.last_kind.get(cur) in self.voluntary:
           # a sleeping thread gave the processor up voluntarily: switching away is no pre-emption
           enabled = [t for t in enabled if t.name != cur] + [t for t in enabled if t.name == cur]
           cur = None
@@ -311,6 +317,42 @@ def segment_chooser(segments):
         return th
       state['i'] += 1
       state['left'] = None
+    if cur is not None:
+      return cur
+    return enabled[0]
+  return ch
+
+
+def landmark_chooser(sch_getter, plan, state_pred=None):
+  """plan: list of (thread, cond).  cond is one of
+       ('done',)                     until the thread finishes
+       ('line', func, lineno, nth)   until the thread is parked for the nth time (since the phase began)
+                                     just before executing that source line
+       ('pred', name)                until state_pred(name) is true at a scheduling point of that thread
+     After the plan: non-pre-emptive default."""
+  st = dict(i=0, count=0)
+
+  def ch(step, enabled, cur):
+    sc = sch_getter()
+    while st['i'] < len(plan):
+      th, cond = plan[st['i']]
+      if th not in enabled:
+        st['i'] += 1
+        st['count'] = 0
+        continue
+      if cond[0] == 'line':
+        if cur == th and sc.last_kind.get(th) == 'line' and sc.last_line.get(th) == (cond[1], cond[2]):
+          st['count'] += 1
+          if st['count'] >= cond[3]:
+            st['i'] += 1
+            st['count'] = 0
+            continue
+      elif cond[0] == 'pred':
+        if state_pred(cond[1]) and sc.last_kind.get(th) in ('op', None, 'line'):
+          st['i'] += 1
+          st['count'] = 0
+          continue
+      return th
     if cur is not None:
       return cur
     return enabled[0]
